@@ -14,9 +14,10 @@ import (
 // operation makes the set "everything".
 
 type effSet struct {
-	vars map[string]bool
-	all  bool
-	why  string
+	vars  map[string]bool // may be written at arbitrary references
+	fresh map[string]bool // written only at references allocated during the call
+	all   bool
+	why   string
 }
 
 func (eng *Engine) scratchVC() *VC {
@@ -31,10 +32,10 @@ func (eng *Engine) scratchVC() *VC {
 // callees whose effects must be added.
 var effWhy = map[*ssa.Function]string{}
 
-func (eng *Engine) directEffects(fn *ssa.Function) (map[string]bool, []*ssa.Function, bool) {
-	defer func() {}()
+func (eng *Engine) directEffects(fn *ssa.Function) (map[string]bool, map[string]bool, []*ssa.Function, bool) {
 	vc := eng.scratchVC()
 	vars := map[string]bool{}
+	fresh := map[string]bool{}
 	var callees []*ssa.Function
 	all := false
 	addCall := func(c *ssa.CallCommon) {
@@ -52,6 +53,13 @@ func (eng *Engine) directEffects(fn *ssa.Function) (map[string]bool, []*ssa.Func
 					all = true
 				}
 				return
+			} else if tc != nil && tc.RepoImpls && c.IsInvoke() {
+				if n, ok := types.Unalias(c.Value.Type()).(*types.Named); ok {
+					if impls := eng.implementations(n, c.Method); len(impls) > 0 {
+						callees = append(callees, impls...)
+						return
+					}
+				}
 			}
 			// an unexported interface can only be implemented inside the repository
 			if n, ok := types.Unalias(c.Value.Type()).(*types.Named); ok && c.IsInvoke() && !n.Obj().Exported() && n.Obj().Pkg() != nil && strings.HasPrefix(n.Obj().Pkg().Path(), repoPrefix) {
@@ -73,6 +81,28 @@ func (eng *Engine) directEffects(fn *ssa.Function) (map[string]bool, []*ssa.Func
 			return
 		}
 		if !isRepoFunc(callee) {
+			// sort.Sort / sort.Stable call back into the Len/Less/Swap methods of
+			// their argument
+			if full := callee.String(); (full == "sort.Sort" || full == "sort.Stable" || full == "sort.IsSorted") && len(c.Args) == 1 {
+				if mi, ok := c.Args[0].(*ssa.MakeInterface); ok {
+					okAll := true
+					for _, mn := range []string{"Len", "Less", "Swap"} {
+						sel := eng.prog.MethodSets.MethodSet(mi.X.Type()).Lookup(nil, mn)
+						if sel == nil {
+							okAll = false
+							break
+						}
+						if f := eng.prog.MethodValue(sel); f != nil {
+							callees = append(callees, f)
+						} else {
+							okAll = false
+						}
+					}
+					if okAll {
+						return
+					}
+				}
+			}
 			switch externalKind(callee) {
 			case "pure":
 			case "elems":
@@ -118,6 +148,20 @@ func (eng *Engine) directEffects(fn *ssa.Function) (map[string]bool, []*ssa.Func
 				addCall(&x.Call)
 			case *ssa.Send, *ssa.Select:
 				// channel operations do not write modelled memory
+			case *ssa.Alloc, *ssa.MakeSlice, *ssa.MakeMap:
+				vc.instrEffects(in, fresh, 99)
+			case *ssa.Store:
+				if isAllocBased(x.Addr) {
+					vc.instrEffects(in, fresh, 99)
+				} else if vc.instrEffects(in, vars, 99) {
+					all = true
+				}
+			case *ssa.MapUpdate:
+				if _, isMk := x.Map.(*ssa.MakeMap); isMk {
+					vc.instrEffects(in, fresh, 99)
+				} else {
+					vc.instrEffects(in, vars, 99)
+				}
 			default:
 				if vc.instrEffects(in, vars, 99) {
 					all = true
@@ -127,7 +171,7 @@ func (eng *Engine) directEffects(fn *ssa.Function) (map[string]bool, []*ssa.Func
 	}
 	// anonymous functions created here run when called; their effects are
 	// accounted for at their call sites (dynamic calls are "all")
-	return vars, callees, all
+	return vars, fresh, callees, all
 }
 
 // inferredEffects returns the transitive write set of fn.
@@ -138,6 +182,7 @@ func (eng *Engine) inferredEffects(fn *ssa.Function) *effSet {
 	// reachable set
 	type node struct {
 		vars    map[string]bool
+		fresh   map[string]bool
 		callees []*ssa.Function
 		all     bool
 	}
@@ -149,11 +194,11 @@ func (eng *Engine) inferredEffects(fn *ssa.Function) *effSet {
 			return
 		}
 		if es, ok := eng.effMemo[f]; ok {
-			nodes[f] = &node{vars: es.vars, all: es.all}
+			nodes[f] = &node{vars: es.vars, fresh: es.fresh, all: es.all}
 			return
 		}
-		v, c, a := eng.directEffects(f)
-		n := &node{vars: v, callees: c, all: a}
+		v, fr, c, a := eng.directEffects(f)
+		n := &node{vars: v, fresh: fr, callees: c, all: a}
 		nodes[f] = n
 		order = append(order, f)
 		for _, cf := range c {
@@ -178,29 +223,73 @@ func (eng *Engine) inferredEffects(fn *ssa.Function) *effSet {
 						changed = true
 					}
 				}
+				for v := range cn.fresh {
+					if !n.fresh[v] {
+						n.fresh[v] = true
+						changed = true
+					}
+				}
 			}
 		}
 	}
 	for _, f := range order {
 		n := nodes[f]
-		eng.effMemo[f] = &effSet{vars: n.vars, all: n.all}
+		eng.effMemo[f] = &effSet{vars: n.vars, fresh: n.fresh, all: n.all}
 	}
 	return eng.effMemo[fn]
 }
 
 // havocVars gives the listed heap variables (those in scope) fresh versions.
-func (vc *VC) havocVars(st *State, vars map[string]bool) {
+func (vc *VC) havocVars(st *State, vars, fresh map[string]bool) {
 	old := st.clone()
 	for _, name := range vc.heapOrder {
-		if !vars[name] || name == "CLK" || strings.HasPrefix(name, "Gh_") || strings.HasPrefix(name, "DF_") {
+		if name == "CLK" || strings.HasPrefix(name, "Gh_") || strings.HasPrefix(name, "DF_") {
 			continue
 		}
-		st.heap[name] = vc.freshConst(name, vc.heapSort[name])
+		if vars[name] {
+			st.heap[name] = vc.havocOne(old, name)
+			continue
+		}
+		if fresh[name] && strings.HasPrefix(vc.heapSort[name], "(Array Ref ") {
+			// Written only at references allocated during the call.  Nothing is
+			// known about the array at references that were not yet allocated, so
+			// keeping the same array is a sound over-approximation: objects that
+			// existed keep their values, the callee's new objects have arbitrary
+			// contents except what its ensures clauses state.
+			continue
+		} else if fresh[name] {
+			st.heap[name] = vc.freshConst(name, vc.heapSort[name])
+		}
 	}
 	nclk := vc.freshConst("CLK", "Int")
 	vc.assume("(>= " + nclk + " " + old.heap["CLK"] + ")")
 	st.heap["CLK"] = nclk
 	vc.preserveLocals(old, st)
+}
+
+// havocImpls havocs the union of the write sets of the repository's
+// implementations of an interface method (type contract `like-repo-implementations`).
+func (vc *VC) havocImpls(st *State, iface *types.Named, m *types.Func, name string) bool {
+	impls := vc.eng.implementations(iface, m)
+	if len(impls) == 0 {
+		return false
+	}
+	vars, fresh := map[string]bool{}, map[string]bool{}
+	for _, f := range impls {
+		es := vc.eng.inferredEffects(f)
+		if es.all {
+			return false
+		}
+		for v := range es.vars {
+			vars[v] = true
+		}
+		for v := range es.fresh {
+			fresh[v] = true
+		}
+	}
+	vc.note("assumed: host implementations of " + name + " write no more than the repository's own implementations")
+	vc.havocVars(st, vars, fresh)
+	return true
 }
 
 // havocCallee havocs what callee may write (inferred), or everything.
@@ -209,7 +298,7 @@ func (vc *VC) havocCallee(st *State, callee *ssa.Function, name string) {
 		es := vc.eng.inferredEffects(callee)
 		if !es.all {
 			vc.note("inferred write set used for " + name)
-			vc.havocVars(st, es.vars)
+			vc.havocVars(st, es.vars, es.fresh)
 			return
 		}
 	}
